@@ -113,8 +113,36 @@ def _created_cases():
                 yield {'spec': top, 'inputs': inputs}
 
 
+def _typed_validator_cases():
+    """A validator that relies on the declared type of its port is only handed values of that type."""
+    for req in (True, False):
+        for default in (None, ['plain', 3]):
+            tree = pm.ns({'p': pm.port(required=req, valid_type='int', validator='typed_nonneg', default=default), 'sub': pm.ns({'q': pm.port(required=False, valid_type='num', validator='typed_nonneg')}, required=False)})
+            for pval, sval in itertools.product(['<absent>', 1, -1, 's', None, [1]], ['<absent>', {}, {'q': 1.5}, {'q': -2}, {'q': 's'}, {'q': None}]):
+                inputs = {}
+                if pval != '<absent>':
+                    inputs['p'] = pval
+                if sval != '<absent>':
+                    inputs['sub'] = sval
+                yield {'spec': tree, 'inputs': inputs}
+
+
+def _falsy_default_cases():
+    """Defaults that are falsy (0, False, '', empty containers, 0.0) are defaults: the port is optional, also where the
+    default is not populated (namespace with populate_defaults=False that the caller leaves out)."""
+    for d in (0, False, '', [], {}, 0.0, 5, 'x'):
+        for mode in ('plain', 'callable'):
+            for lazy_req in (True, False):
+                for populate in (False, True):
+                    tree = pm.ns({'lazy': pm.ns({'value': pm.port(required=True, default=[mode, d]), 'other': pm.port(required=False)}, populate_defaults=populate, required=lazy_req), 'top': pm.port(required=True, default=[mode, d])})
+                    for inputs in ({}, {'lazy': {}}, {'lazy': {'other': 1}}, {'lazy': {'value': 7}}, {'top': 3}):
+                        yield {'spec': tree, 'inputs': copy.deepcopy(inputs)}
+
+
 def enumerate_cases(tier, scope):
     if scope == 'dynamic':
+        yield from _typed_validator_cases()
+        yield from _falsy_default_cases()
         yield from _dynamic_cases()
         yield from _validator_cases()
         yield from _created_cases()
